@@ -80,15 +80,38 @@ def f16_ref(W, b, x, a, fkind):
     raise AssertionError(fkind)
 
 
+LOGP16_RADIUS = [None]   # set per run by the check: the target density vanishes outside max|x_i| <= radius
+
+
 def logp16_ref(W, b, x, c):
     x = x.reshape(-1)
     d = x.shape[0]
+    R = LOGP16_RADIUS[0]
+    if R is not None and float(x.detach().abs().max()) > R:
+        # outside the support of a truncated density
+        return torch.full((), float("-inf"), dtype=x.dtype)
     return -(x * x).sum() * (0.5 + c * c) - 0.1 * ((W[:d, :d] @ x) ** 2).sum() + 0.2 * (b[:d] * x).sum()
 
 
+G16_KIND = [0]     # set per run by the check: 0 every coordinate moves, 1 last coordinate pinned, 2 single-site update
+
+
 def g16_ref(x):
-    """deterministic contraction used as the caller-supplied step of mhcustom"""
-    return 0.6 * x + 0.3 * torch.cos(x.flip(0)) - 0.1
+    """deterministic contraction used as the caller-supplied step of mhcustom.  Kinds 1 and 2 are what single-site /
+    Gibbs-like samplers do: consecutive states share some coordinates without being equal"""
+    y = 0.6 * x + 0.3 * torch.cos(x.flip(0)) - 0.1
+    k = G16_KIND[0]
+    if k == 0 or x.numel() < 2:
+        return y
+    if k == 1:
+        y = y.clone()
+        y.reshape(-1)[-1] = x.reshape(-1)[-1]
+        return y
+    # only the coordinate that would move most is updated
+    j = int((y - x).detach().abs().reshape(-1).argmax())
+    out = x.clone()
+    out.reshape(-1)[j] = y.reshape(-1)[j]
+    return out
 
 
 class Maths(object):
